@@ -432,6 +432,8 @@ func (c *Ctx) mul(a, b Term) Term {
 	}
 	ge0 := func(t Term) Term { return app(SBool, ">=", t, intLit(0)) }
 	hs = append(hs, implies(and(ge0(a), ge0(b)), ge0(p)))
+	hs = append(hs, implies(and(app(SBool, ">=", a, intLit(1)), ge0(b)), app(SBool, ">=", p, b)))
+	hs = append(hs, implies(and(app(SBool, ">=", b, intLit(1)), ge0(a)), app(SBool, ">=", p, a)))
 	pair := func(f, o1, o2, p1, p2 Term) {
 		d := c.name("d", app(SInt, "-", o2, o1))
 		hs = append(hs,
